@@ -517,7 +517,9 @@ fn sampled(ctx: &mut Ctx, pat: Pattern, var: Variant, total: u64) {
                 ctx.violation(&part, &f, serde_json::to_value(&case).unwrap());
                 continue;
             }
-            // shrink towards the natural drop order while the same kind of failure remains
+            // shrink towards the natural drop order while the same kind of failure remains (the unshrunk
+            // failure is on file first: variants of a failing case may crash the process)
+            let provisional = ctx.violation_provisional(&part, &f, serde_json::to_value(&case).unwrap());
             let sig = f.signature.clone();
             let min = vcore::shrink::greedy(
                 case.clone(),
@@ -529,7 +531,11 @@ fn sampled(ctx: &mut Ctx, pat: Pattern, var: Variant, total: u64) {
                 Err(x) => x,
                 Ok(()) => f,
             };
-            ctx.violation(&part, &fl, serde_json::to_value(&min).unwrap());
+            if provisional {
+                ctx.replace_provisional(&part, &fl, serde_json::to_value(&min).unwrap());
+            } else {
+                ctx.violation(&part, &fl, serde_json::to_value(&min).unwrap());
+            }
             break;
         }
     }
